@@ -164,6 +164,9 @@ func (w *World) monitorPaths() {
 		return
 	}
 	known := w.allRepoNames()
+	for r := range w.addressed {
+		known = append(known, r)
+	}
 	for _, e := range w.x.sim.FS.Log {
 		paths := []string{e.Path}
 		if e.Op == "rename" {
@@ -229,7 +232,7 @@ func planC14(prop string, seed uint64, tier string, idx int) *Plan {
 	if g.r.chance(40) {
 		k.GCFreqMs = int64(g.r.pick(100, 5000, 60000))
 		k.GCGraceMs = int64(g.r.pick(-1, 1000, 60000, 0))
-		k.Untagged = g.r.pick(-1, 0, 1)
+		k.Untagged = g.r.pick(-1, 0) // collection of untagged manifests is the business of C05/C06
 	}
 	subj := g.newImage(-1, -1)
 	img2 := g.newImage(-1, subj)
